@@ -6,7 +6,7 @@ seeds=${@:-$(ls seeded | grep -E '^C[0-9]+-[0-9]+$')}
 out=seeded/MATRIX.txt
 for s in $seeds; do
   prop=${s%-*}
-  r=$(TRY_TIMEOUT=1500 tools/try_seed_wt.sh seeded/$s/patch.diff $prop 2>&1)
+  r=$(TRY_TIMEOUT=1500 tools/try_seed_wt.sh /verif/seeded/$s/patch.diff $prop 2>&1)
   rc=$(echo "$r" | grep -o 'exit=[0-9]*' | head -1)
   obl=$(echo "$r" | grep -o '^violation in [^:]*' | sed 's/violation in //' | sort -u | tr '\n' ' ')
   line="$s $rc ${obl}"
